@@ -149,7 +149,18 @@ pub fn gen_prot(g: &mut Gen, ctx: &mut Ctx) -> Result<Prot, String> {
             Some(Item::Map(vec![(Item::Int(4), Item::Bytes((0..n).map(|i| (i * 7 + 1) as u8).collect()))]))
         }
     };
-    gen_prot_with(g, ctx, content)
+    let mut p = gen_prot_with(g, ctx, content)?;
+    if g.ratio(1, 12) {
+        // the value reaches the caller through `Clone::clone_from` over a header of another
+        // provenance (decoded over built, built over decoded, longer over shorter ...): a copy is a copy
+        let oc = if g.bool() { None } else { Some(Item::Map(vec![(Item::Int(4), Item::Bytes(g.nonempty_bytes()))])) };
+        let other = gen_prot_with(g, ctx, oc)?;
+        let mut v = other.value;
+        v.clone_from(&p.value);
+        ctx.classf(format!("protected:copied-by-clone_from:{}-over-{}", p.flavour, other.flavour));
+        p.value = v;
+    }
+    Ok(p)
 }
 
 /// Two protected headers with the *same content* (independently styled / positioned / built):
@@ -160,7 +171,12 @@ pub fn gen_prot_pair_same_content(g: &mut Gen, ctx: &mut Ctx) -> Result<(Prot, P
         // equal under `==` but not identical: the two headers differ only in the sign of a float
         // zero inside an extra parameter (0.0 == -0.0, yet they encode differently)
         if let Item::Map(m) = &content {
-            let label = Item::Int(900 + g.range_i64(0, 50) as i128);
+            // (a label the content does not already use)
+            let mut n = 900 + g.range_i64(0, 50) as i128;
+            while m.iter().any(|(k, _)| k == &Item::Int(n)) {
+                n += 1;
+            }
+            let label = Item::Int(n);
             let wrap = |z: f64, deep: bool| if deep { Item::Array(vec![Item::Int(1), Item::Map(vec![(Item::Int(2), Item::Float(z))])]) } else { Item::Float(z) };
             let deep = g.bool();
             let mut a = m.clone();
